@@ -407,6 +407,7 @@ type session struct {
 	msgNo     int
 	policy    string
 	polFault  string
+	polShift  int // height-shift: 0 a little above, 1 zero, 2 at or below the sync origin, 3 / 4 huge
 	respStop  chan struct{}
 	respDone  chan struct{}
 	hold      chan struct{} // non-nil: the responder holds its BlocksMsg answers until this is closed
@@ -1523,7 +1524,22 @@ func (s *session) answerAs(policy string, rq rxMsg) (uint64, []byte) {
 				d = s.momentumAt(1 + (ht % s.tip))
 			case "height-shift": // the requested hash with another claimed height (the queue files by height)
 				if ht > s.k {
-					d.Momentum.Height += 1 + uint64(i%2)
+					switch s.polShift {
+					case 1: // below the origin of the sync cycle
+						d.Momentum.Height = 0
+					case 2:
+						if s.k > 0 {
+							d.Momentum.Height = s.k - uint64(i)%(s.k+1)
+						} else {
+							d.Momentum.Height = 0
+						}
+					case 3:
+						d.Momentum.Height = 1<<63 + uint64(i)
+					case 4:
+						d.Momentum.Height = ^uint64(0) - uint64(i%2)
+					default:
+						d.Momentum.Height += 1 + uint64(i%2)
+					}
 				}
 			case "too-many":
 				for j := 0; j < 3; j++ {
@@ -1799,6 +1815,7 @@ func sessionProp(c *pbt.C) {
 	if !s.onA {
 		s.policy = c.OneOf("policy", "silent", "honest", "honest", "mutated", "mutated", "garbage", "empty", "too-many", "wrong-blocks", "height-shift", "raw")
 		s.polFault = faultKinds[c.Pick("policy.fault", len(faultKinds))]
+		s.polShift = c.Pick("policy.shift", 5)
 		if s.policy == "honest" || s.policy == "mutated" || s.policy == "too-many" {
 			for h := s.k + 1; h <= s.tip; h++ { // the responder may hand over A[k+1..tip]
 				s.validSet[h] = true
